@@ -12,9 +12,11 @@ package main
 
 import (
 	"fmt"
+	"os"
 	"runtime"
 	"strings"
 	"sync"
+	"sync/atomic"
 	"time"
 
 	"github.com/hattya/go.sh/interp"
@@ -141,10 +143,57 @@ func (s *sched) hook(ev *hev) bool {
 	return <-s.chanFor(g)
 }
 
+// Delay runs: a free run (no controller: the real channel operations decide who may proceed) in which the goroutine
+// that reaches the i-th hooked point yields until every other goroutine has run as far as it can.  With GOMAXPROCS=1
+// this is one deterministic deviation from the default schedule per point; unlike the controlled exploration it
+// does not depend on the scheduler's model of which operation is enabled, so it also sees synchronisation that a
+// change added next to the hooked operations.
+var delayAt, delayCount int64
+
+func delayPoint() {
+	if atomic.LoadInt64(&delayAt) == 0 {
+		return
+	}
+	if atomic.AddInt64(&delayCount, 1) == atomic.LoadInt64(&delayAt) {
+		for j := 0; j < 200; j++ {
+			runtime.Gosched()
+		}
+	}
+}
+
+// delayRuns runs body once to count its hooked points and then once per point with the delay there; visit gets
+// every observation.
+func delayRuns(body func(afterReturn *bool) string, visit func(point int, obs string)) int {
+	settle := func() {
+		for i := 0; i < 200 && runtime.NumGoroutine() > 3; i++ {
+			runtime.Gosched()
+		}
+	}
+	dummy := false
+	atomic.StoreInt64(&delayCount, 0)
+	atomic.StoreInt64(&delayAt, 1<<62)
+	visit(0, body(&dummy))
+	settle()
+	h := int(atomic.LoadInt64(&delayCount))
+	if h > 300 {
+		h = 300
+	}
+	for i := 1; i <= h; i++ {
+		atomic.StoreInt64(&delayCount, 0)
+		atomic.StoreInt64(&delayAt, int64(i))
+		visit(i, body(&dummy))
+		atomic.StoreInt64(&delayAt, 1<<62)
+		settle()
+	}
+	atomic.StoreInt64(&delayAt, 0)
+	return h
+}
+
 func installHooks() {
 	parser.VerifHook = func(e *parser.VerifEvent) bool {
 		s := curSched
 		if s == nil {
+			delayPoint()
 			return true // free running: vsend must not hide the cancel channel
 		}
 		k := e.Kind // parser's numbering equals the unified one up to kReturn
@@ -153,6 +202,7 @@ func installHooks() {
 	interp.VerifHook = func(e *interp.VerifEvent) bool {
 		s := curSched
 		if s == nil {
+			delayPoint()
 			return true
 		}
 		var k int
@@ -245,13 +295,24 @@ func (s *sched) enabled() []transition {
 
 // collect waits until n released goroutines have parked again or exited.
 func (s *sched) collect(n int) bool {
-	timeout := time.NewTimer(20 * time.Second)
+	// A released goroutine that has not come back after 20 s is blocked in an operation the scheduler does not own
+	// — unless this process was runnable all the while and did not get a CPU (busy machine): then go on waiting.
+	const window = 20 * time.Second
+	timeout := time.NewTimer(window)
 	defer timeout.Stop()
+	self := []int{os.Getpid()}
+	var s0 procSample // taken when the first window expires (reading /proc on every call would dominate the run)
 	for n > 0 {
 		var a arrival
 		select {
 		case a = <-s.arrive:
 		case <-timeout.C:
+			s1 := sampleProcs(self)
+			if !s0.ok || s1.ok && (time.Duration((s1.runNs+s1.waitNs)-(s0.runNs+s0.waitNs)) > window/4 || s1.blkio != s0.blkio) {
+				s0 = s1
+				timeout.Reset(window)
+				continue
+			}
 			s.blocked = true
 			return false
 		}
